@@ -25,7 +25,7 @@ Ltac unf :=
   unfold p_isinstance, p_type_in, p_in, p_is_none, r_and, r_or, r_not, p_truth, p_str, p_float, p_int, p_abs, p_isinf, p_isnan,
     p_fmt15g, p_decode_utf8, p_lower, p_startswith, p_safe_repr, p_iter, p_json_loads, p_sorted_strs, p_dt_date, p_date_to_ts,
     p_dt_to_ts, p_parse_iso_date, p_parse_iso, p_reclist_from_repr, p_table_is, p_recordlist_of, p_rec_id, p_row_ids, p_dedup,
-    p_lt, p_le, p_gt, p_eq, py_int_of_float, py_float, fl_bind, fl_seq, fl_try, run_flow, bind, str_raise, isinstance1, type_is1, existsb, int_like, str_mem, orb, andb, negb in *.
+    p_lt, p_le, p_gt, p_eq, py_int_of_float, py_float, fl_bind, fl_seq, fl_try, bind, str_raise, isinstance1, type_is1, existsb, int_like, str_mem, orb, andb, negb in *.
 Ltac split_match :=
   match goal with
   | |- context [match map_result ?f ?l with _ => _ end] => destruct (map_result f l)
@@ -44,8 +44,8 @@ Ltac split_match_eq :=
       | _ => destruct x eqn:?
       end
   end.
-Ltac crush := unf; cbn -[str_eqb Z.pow]; rewrite ?str_eqb_nil_r;
-  repeat (first [split_match | progress unf]; cbn -[str_eqb Z.pow]); auto.
+Ltac crush := unf; unfold run_flow in *; cbn -[str_eqb Z.pow]; rewrite ?str_eqb_nil_r;
+  repeat (first [split_match | progress (unf; unfold run_flow in * )]; cbn -[str_eqb Z.pow]); auto.
 
 Lemma f_abs_lt : forall f, f_lt_Z (f_absv f) 9007199254740992 = f_abs_lt_pow2 f 53.
 Proof.
@@ -240,13 +240,18 @@ Lemma bridge_RL_k1 : forall t v p a b,
   same_res (run_flow (gen_ReferenceList_do_convert_k1 orc t (v, p, a, b))) (reflist_tail t v).
 Proof.
   intros t v p a b. unfold gen_ReferenceList_do_convert_k1, reflist_tail.
-  destruct v; try (unf; cbn -[str_eqb Z.pow]; repeat (split_match; cbn -[str_eqb Z.pow]); auto; apply bridge_RL_k2; fail).
-  - (* list *)
-    unf. cbn -[str_eqb Z.pow all_m]. destruct l as [|x l]; [cbn; auto|]. cbn -[str_eqb Z.pow all_m].
-    rewrite all_recordsets. cbn -[str_eqb Z.pow forallb].
-    destruct (forallb (is_recordset_of t) (x :: l)) eqn:E; cbn -[str_eqb Z.pow forallb].
-    + rewrite (flatten_recordsets t _ E). cbn [bind]. rewrite dedup_ints. cbn. reflexivity.
-    + apply bridge_RL_k2.
+  destruct v;
+    try (unf; cbn -[str_eqb Z.pow gen_ReferenceList_do_convert_k2 reflist_generic];
+         repeat (split_match; cbn -[str_eqb Z.pow gen_ReferenceList_do_convert_k2 reflist_generic]);
+         first [exact I | reflexivity | apply bridge_RL_k2]; fail).
+  (* list *)
+  destruct l as [|x l]; [reflexivity|].
+  unfold p_iter. cbn [py_iter bind]. rewrite all_recordsets.
+  unfold fl_seq, fl_bind, r_not, r_and, p_truth.
+  cbn [p_isinstance existsb isinstance1 orb py_truthy bind negb].
+  destruct (forallb (is_recordset_of t) (x :: l)) eqn:E.
+  - rewrite (flatten_recordsets t _ E). cbn [bind]. rewrite dedup_ints. reflexivity.
+  - apply bridge_RL_k2.
 Qed.
 
 End Bridge.
